@@ -55,6 +55,10 @@ pub fn run(a: &Args, rep: &mut Report) {
         "C18" => crate::p_poly::c18(a, rep),
         "C19" => crate::p_geo::c19(a, rep),
         "C20" => crate::p_geo::c20(a, rep),
+        "C09" => {
+            let out = a.out_dir.clone().unwrap_or_else(|| a.verif_dir.clone());
+            crate::p_par::c09(a, rep, &out)
+        }
         "C10" => crate::p_pred::c10(a, rep),
         "C11" => {
             let out = a.out_dir.clone().unwrap_or_else(|| a.verif_dir.clone());
@@ -155,6 +159,7 @@ pub fn run_one(id: &str, c: &Case, rep: &mut Report) {
         "C08" => crate::p_dim::one_c08(id, c, rep),
         "C16" => crate::p_nn::one_c16(id, c, rep),
         "C17" => crate::p_nn::one_c17(id, c, rep),
+        "C09" => crate::p_par::replay_c09(c, rep),
         "C15" => crate::p_poly::one_c15(id, c, rep),
         "C18" => crate::p_poly::one_c18(id, c, rep),
         "C05" => crate::p_total::one_c05(id, c, rep),
